@@ -455,7 +455,7 @@ def main(argv: Sequence[str] | None = None) -> int:
         temp_stdout = io.StringIO()
         sys_stdout = sys.stdout
         used_names = _used_names_in_files(_iter_python_files(args.preserve))
-        preserve = set.union(*used_names.values()) if used_names else set()
+        preserve = set().union(*used_names.values())
         try:
             sys.stdout = temp_stdout
             source = format_code(source, preserve=preserve, safe=args.safe)
